@@ -108,7 +108,15 @@ pub struct Ctx {
     pub lib_alloc: u64,
     pub lib_input: u64,
     pub lib_calls: u64,
+    /// largest ratio of one metered call: bytes it allocated / (bytes it was
+    /// given + CALL_ALLOWANCE), in thousandths, and that call's numbers
+    pub work_ratio_milli: u64,
+    pub work_worst: (u64, u64),
 }
+
+/// Fixed allowance per metered call (small inputs have fixed costs: a
+/// BufReader's buffer, a hasher, an error value).
+pub const CALL_ALLOWANCE: u64 = 4096;
 
 /// Measures the bytes one library call allocates (see `alloc_meter`).
 pub struct Work {
@@ -125,17 +133,18 @@ impl Work {
     /// `input` = the number of bytes the call was given to work on.
     #[inline]
     pub fn stop(self, ctx: &mut Ctx, input: usize) {
-        ctx.lib_alloc += crate::alloc_meter::work_bytes().wrapping_sub(self.a0);
+        let a = crate::alloc_meter::work_bytes().wrapping_sub(self.a0);
+        ctx.lib_alloc += a;
         ctx.lib_input += input as u64;
         ctx.lib_calls += 1;
+        let r = a.saturating_mul(1000) / (input as u64 + CALL_ALLOWANCE);
+        if r > ctx.work_ratio_milli {
+            ctx.work_ratio_milli = r;
+            ctx.work_worst = (a, input as u64);
+        }
     }
 }
 
-/// The denominator of the work ratio: input bytes plus a fixed allowance per
-/// call and per run (small inputs have fixed costs).
-pub fn work_allowance(ctx: &Ctx) -> u64 {
-    ctx.lib_input + 128 * ctx.lib_calls + 16_384
-}
 
 impl Ctx {
     pub fn new(trace: bool) -> Ctx {
@@ -150,6 +159,8 @@ impl Ctx {
             lib_alloc: 0,
             lib_input: 0,
             lib_calls: 0,
+            work_ratio_milli: 0,
+            work_worst: (0, 0),
         }
     }
     /// Record an event (goes into the event digest).
@@ -228,11 +239,11 @@ pub trait Property: Sync {
     fn expected_probes(&self) -> Vec<&'static str> {
         Vec::new()
     }
-    /// Work budget: a run violates `work-budget-exceeded` when its metered
-    /// library calls allocated more than this factor times their allowance
-    /// (input bytes + 128 bytes per call + 16 KiB).  Calibrated per property at
-    /// >= 32 times the largest ratio seen on the pinned tree (thorough tier),
-    /// so only a blow-up in the order of the input size can trip it.
+    /// Work budget: a run violates `work-budget-exceeded` when one metered
+    /// library call allocated more than this factor times its allowance (the
+    /// bytes it was given + 4 KiB).  Calibrated per property at >= 32 times
+    /// the largest ratio seen on the pinned tree (thorough tier), so only a
+    /// blow-up in the order of the input size can trip it.
     fn work_factor(&self) -> Option<u64> {
         None
     }
@@ -353,16 +364,15 @@ pub fn exec_one<P: Property>(p: &P, sc: &P::Sc, trace: bool) -> RunOutput {
     let mut outcome = outcome;
     if outcome.is_ok() && ctx.lib_calls > 0 {
         if let Some(f) = p.work_factor() {
-            let allow = work_allowance(&ctx);
-            if ctx.lib_alloc > f.saturating_mul(allow) {
+            if ctx.work_ratio_milli > f.saturating_mul(1000) {
                 outcome = Err(Violation::new(
                     "work-budget-exceeded",
                     format!(
-                        "the library allocated {} bytes in {} calls that were given {} bytes of input: {} times the allowance (budget factor {})",
-                        ctx.lib_alloc,
-                        ctx.lib_calls,
-                        ctx.lib_input,
-                        ctx.lib_alloc / allow.max(1),
+                        "one library call allocated {} bytes for {} bytes of input: {} times its allowance of input + {} bytes (budget factor {})",
+                        ctx.work_worst.0,
+                        ctx.work_worst.1,
+                        ctx.work_ratio_milli / 1000,
+                        CALL_ALLOWANCE,
                         f
                     ),
                 ));
@@ -530,11 +540,11 @@ fn record<P: Property>(
         acc.lib_alloc += out.ctx.lib_alloc;
         acc.lib_input += out.ctx.lib_input;
         acc.lib_calls += out.ctx.lib_calls;
-        let r = out.ctx.lib_alloc.saturating_mul(1000) / work_allowance(&out.ctx).max(1);
+        let r = out.ctx.work_ratio_milli;
         if r > acc.max_work_ratio_milli {
             acc.max_work_ratio_milli = r;
             if std::env::var_os("PKGSIM_WORK_DEBUG").is_some() {
-                eprintln!("WORK run={} sub={} ratio={}.{:03} alloc={} input={} calls={}", run, sub, r / 1000, r % 1000, out.ctx.lib_alloc, out.ctx.lib_input, out.ctx.lib_calls);
+                eprintln!("WORK run={} sub={} ratio={}.{:03} call_alloc={} call_input={} calls={}", run, sub, r / 1000, r % 1000, out.ctx.work_worst.0, out.ctx.work_worst.1, out.ctx.lib_calls);
             }
         }
     }
@@ -1031,11 +1041,11 @@ pub fn run_batch<P: Property>(p: &P, opts: &Opts) -> BatchReport {
             "workers": opts.workers,
             "exhaustive": false,
             "work_meter": {
-                "what": "allocator seam: bytes allocated by the metered library calls of each run, compared with an allowance of (input bytes + 128 bytes per call + 16 KiB); a run whose ratio exceeds budget_factor is the violation work-budget-exceeded",
+                "what": "allocator seam: bytes allocated by each metered library call, compared with an allowance of (the bytes the call was given + 4 KiB); a call whose ratio exceeds budget_factor is the violation work-budget-exceeded",
                 "metered_library_calls": tot.lib_calls,
                 "input_bytes": tot.lib_input,
                 "allocated_bytes": tot.lib_alloc,
-                "largest_run_ratio": (tot.max_work_ratio_milli as f64) / 1000.0,
+                "largest_call_ratio": (tot.max_work_ratio_milli as f64) / 1000.0,
                 "budget_factor": p.work_factor(),
             },
         });
